@@ -70,6 +70,18 @@ def make_files(rng, count):
                 if rng.random() < .7:
                     w.write_diff(rng.choice(texts).encode('utf-8'))
         files.append(fp.getvalue())
+    # well-formed files of another producer whose HEADERS end in CRLF (the
+    # writer only emits LF headers): the two-byte terminator can straddle a
+    # block boundary
+    from props import native_C03 as F
+    want = max(1, count // 3)
+    for _ in range(200):
+        if want == 0:
+            break
+        fb = F.make_file(rng)
+        if fb.hnl == b'\r\n':
+            files.append(b''.join(fb.out))
+            want -= 1
     return files
 
 
@@ -147,7 +159,13 @@ def bounded(seed, tier):
 def main():
     req = json.load(sys.stdin)
     op = req['op']
-    if op == 'replay':
+    if op == 'replay' and 'file' in req['witness']:
+        w = req['witness']
+        g = bytes.fromhex(w['file'])
+        got, exp = records(g, w['chunk_size']), records(g, 96)
+        out = {'ok': got == exp, 'got': repr(got)[:800],
+               'expected': repr(exp)[:800]}
+    elif op == 'replay':
         w = req['witness']
         ok, got, exp = run_one(bytes.fromhex(w['data']), w['pos0'],
                                bytes.fromhex(w['c']), w['chunk_size'])
